@@ -25,6 +25,16 @@ struct Arena { char*base=nullptr; size_t cap=0, used=0; UriMemoryManager mm;
   void readonly(bool ro){ mprotect(base,cap,ro?PROT_READ:(PROT_READ|PROT_WRITE)); }
   std::string bytes() const { return std::string(base,used); } };
 
+// a thread-private manager on top of libc whose k-th request fails once; it really frees what it is asked to free,
+// so releasing something that belongs to a shared input is an invalid free (ASan) instead of a silent entry in a log
+struct FailMM { UriMemoryManager mm; long count=0, failAt=0;
+  explicit FailMM(long k):failAt(k){ mm.userData=this;
+    mm.malloc=[](UriMemoryManager*m,size_t n)->void*{ FailMM*f=(FailMM*)m->userData; if(++f->count==f->failAt) return nullptr; return malloc(n?n:1); };
+    mm.calloc=[](UriMemoryManager*m,size_t a,size_t b)->void*{ FailMM*f=(FailMM*)m->userData; if(++f->count==f->failAt) return nullptr; return calloc(a?a:1,b?b:1); };
+    mm.realloc=[](UriMemoryManager*m,void*p,size_t n)->void*{ FailMM*f=(FailMM*)m->userData; if(++f->count==f->failAt) return nullptr; return realloc(p,n); };
+    mm.reallocarray=[](UriMemoryManager*m,void*p,size_t a,size_t b)->void*{ FailMM*f=(FailMM*)m->userData; if(++f->count==f->failAt) return nullptr; return realloc(p,a*b); };
+    mm.free=[](UriMemoryManager*,void*p){ free(p); }; } };
+
 // ---------------------------------------------------------------- the shared world and the call table
 template<class A> struct World {
   typedef typename A::Ch Ch; typedef typename A::Uri Uri; typedef typename A::QL QL;
@@ -43,12 +53,17 @@ template<class A> struct World {
     for(size_t i=0;i<uris.size();++i) for(size_t k=0;k<uris.size();++k){ Uri*r=uris[i]; Uri*b=uris[k]; std::string key=show(utexts[i])+" | "+show(utexts[k]);
       for(int opt=0;opt<2;++opt) add("AddBase",key+" opt"+std::to_string(opt),[=]{ Uri d; int rc=A::AddBaseUriEx(&d,r,b,(UriResolutionOptions)opt); std::string s=res_uri(rc,d); A::FreeUriMembers(&d); return s; });
       if(i<8&&k<8) for(int md=0;md<2;++md) add("RemoveBase",key+" mode"+std::to_string(md),[=]{ Uri d; int rc=A::RemoveBaseUri(&d,r,b,md?URI_TRUE:URI_FALSE); std::string s=res_uri(rc,d); A::FreeUriMembers(&d); return s; });
-      add("Equals",key,[=]{ return J().num("res",A::EqualsUri(r,b)).done(); }); }
+      add("Equals",key,[=]{ return J().num("res",A::EqualsUri(r,b)).done(); });
+      // the same calls with a private manager whose k-th request fails: the clean-up of a failed call must stay inside the thread's own objects
+      if((i==5||i==6||i==0)&&(k==5||k==6||k==0||k==1)) for(long f=1;f<=5;++f){
+        add("AddBaseFail",key+" k"+std::to_string(f),[=]{ FailMM fm(f); Uri d; int rc=A::AddBaseUriExMm(&d,r,b,URI_RESOLVE_STRICTLY,&fm.mm); std::string s=res_uri(rc,d); A::FreeUriMembersMm(&d,&fm.mm); return s; });
+        add("RemoveBaseFail",key+" k"+std::to_string(f),[=]{ FailMM fm(f); Uri d; int rc=A::RemoveBaseUriMm(&d,r,b,URI_FALSE,&fm.mm); std::string s=res_uri(rc,d); A::FreeUriMembersMm(&d,&fm.mm); return s; }); } }
     for(size_t i=0;i<uris.size();++i){ Uri*u=uris[i]; std::string key=show(utexts[i]); const Ch*txt=nullptr; Text tt=utexts[i];
       add("ToString",key,[=]{ int n=-1; int r1=A::ToStringCharsRequired(u,&n); Text t; bool ok=real_tostring<A>(*u,t); return J().num("rcreq",r1).num("req",n).boo("ok",ok).raw("text",jtext(t)).done(); });
       add("MaskReq",key,[=]{ unsigned m=0xFFFF; int rc=A::NormalizeSyntaxMaskRequiredEx(u,&m); return J().num("rc",rc).num("mask",m).num("mask2",A::NormalizeSyntaxMaskRequired(u)).done(); });
       for(unsigned m:{63u,8u,5u}) add("ParseNormalize",key+" mask"+std::to_string(m),[=]{ std::basic_string<Ch> s=to_str<Ch>(tt); Uri v; const Ch*e; int rc=A::ParseSingleUriEx(&v,s.data(),s.data()+s.size(),&e); if(rc) return J().num("rc",rc).done(); rc=A::NormalizeSyntaxEx(&v,m); std::string r=res_uri(rc,v); A::FreeUriMembers(&v); return r; });
       add("ParseMakeOwner",key,[=]{ std::basic_string<Ch> s=to_str<Ch>(tt); Uri v; const Ch*e; int rc=A::ParseSingleUriEx(&v,s.data(),s.data()+s.size(),&e); if(rc) return J().num("rc",rc).done(); rc=A::MakeOwner(&v); std::fill(s.begin(),s.end(),(Ch)'#'); std::string r=res_uri(rc,v); A::FreeUriMembers(&v); return r; });
+      for(long f=1;f<=6;++f) add("ParseNormalizeFail",key+" k"+std::to_string(f),[=]{ FailMM fm(f); std::basic_string<Ch> s=to_str<Ch>(tt); Uri v; const Ch*e; int rc=A::ParseSingleUriExMm(&v,s.data(),s.data()+s.size(),&e,&fm.mm); if(rc) return J().num("rc",rc).done(); rc=A::NormalizeSyntaxExMm(&v,63,&fm.mm); std::string r=res_uri(rc,v); A::FreeUriMembersMm(&v,&fm.mm); return r; });
       (void)txt; }
     for(size_t i=0;i<strs.size();++i){ const Ch*p=strs[i]; size_t n=stexts[i].size(); std::string key=show(stexts[i]);
       add("ParseShared",key,[=]{ Uri v; const Ch*e=nullptr; int rc=A::ParseSingleUriEx(&v,p,p+n,&e); J j; j.num("rc",rc); if(rc==URI_SUCCESS) j.raw("val",Proj<A>::uri(v)); else j.num("epos",e?(long long)(e-p):-1); A::FreeUriMembers(&v); return j.done(); });
